@@ -417,8 +417,11 @@ impl Indexable for ast::ParentClassList {
         if let Some(record_id) = ctx.scopes.current_record_id() {
             for class_ref in self.classes() {
                 if let Some(class_id) = resolve_class_ref_as_class(&class_ref, ctx) {
-                    let record = ctx.symbol_map.record_mut(record_id);
-                    record.add_parent(class_id);
+                    // a class naming itself as parent would make the parent list cyclic
+                    if class_id != record_id {
+                        let record = ctx.symbol_map.record_mut(record_id);
+                        record.add_parent(class_id);
+                    }
                 }
             }
         } else if let Some(multiclass_id) = ctx.scopes.current_multiclass_id() {
